@@ -135,4 +135,26 @@ def checksumAVX2 (buf : List UInt8) (initial : Nat) : Nat :=
 def dispatch (hasAVX2 : Bool) (buf : List UInt8) (initial : Nat) : Nat :=
   if hasAVX2 then checksumAVX2 buf initial else Csum.checksum buf initial
 
+
+/-! ### the text this model was written from
+
+The instruction skeleton of `checksum_amd64.s` (comments, blank lines and `#include` dropped, white space
+collapsed), one block per line. The harness op `asmshape` renders the same skeleton from the working tree
+and the driver compares (class `avx2-asm-shape`): an edit of the assembly that the value stream happens
+not to distinguish still breaks the tie between this model and the code. -/
+def asmSkeletonItems : List String := [
+  "TEXT ·checksumAVX2(SB), NOSPLIT, $0-34", "MOVQ buf_base+0(FP), SI", "MOVQ buf_len+8(FP), CX", "MOVWQZX initial+24(FP), AX", "XCHGB AH, AL", "CMPQ CX, $32", "JLT scalar_tail", "VPXOR Y4, Y4, Y4", "VPXOR Y5, Y5, Y5", "VPXOR Y6, Y6, Y6", "VPXOR Y7, Y7, Y7", "CMPQ CX, $64", "JLT loop32",
+  "loop64:", "VPMOVZXDQ (SI), Y0", "VPMOVZXDQ 16(SI), Y1", "VPMOVZXDQ 32(SI), Y2", "VPMOVZXDQ 48(SI), Y3", "VPADDQ Y0, Y4, Y4", "VPADDQ Y1, Y5, Y5", "VPADDQ Y2, Y6, Y6", "VPADDQ Y3, Y7, Y7", "ADDQ $64, SI", "SUBQ $64, CX", "CMPQ CX, $64", "JGE loop64",
+  "loop32:", "CMPQ CX, $32", "JLT reduce_vec", "VPMOVZXDQ (SI), Y0", "VPMOVZXDQ 16(SI), Y1", "VPADDQ Y0, Y4, Y4", "VPADDQ Y1, Y5, Y5", "ADDQ $32, SI", "SUBQ $32, CX", "JMP loop32",
+  "reduce_vec:", "VPADDQ Y5, Y4, Y4", "VPADDQ Y7, Y6, Y6", "VPADDQ Y6, Y4, Y4", "VEXTRACTI128 $1, Y4, X5", "VPADDQ X5, X4, X4", "VPSHUFD $0x4e, X4, X5", "VPADDQ X5, X4, X4", "VMOVQ X4, R8", "VZEROUPPER", "ADDQ R8, AX", "ADCQ $0, AX",
+  "scalar_tail:", "CMPQ CX, $8", "JLT tail4",
+  "loop8:", "ADDQ (SI), AX", "ADCQ $0, AX", "ADDQ $8, SI", "SUBQ $8, CX", "CMPQ CX, $8", "JGE loop8",
+  "tail4:", "CMPQ CX, $4", "JLT tail2", "MOVL (SI), R8", "ADDQ R8, AX", "ADCQ $0, AX", "ADDQ $4, SI", "SUBQ $4, CX",
+  "tail2:", "CMPQ CX, $2", "JLT tail1", "MOVWQZX (SI), R8", "ADDQ R8, AX", "ADCQ $0, AX", "ADDQ $2, SI", "SUBQ $2, CX",
+  "tail1:", "TESTQ CX, CX", "JZ fold", "MOVBQZX (SI), R8", "ADDQ R8, AX", "ADCQ $0, AX",
+  "fold:", "MOVQ AX, R8", "SHRQ $32, R8", "MOVL AX, AX", "ADDQ R8, AX", "MOVQ AX, R8", "SHRQ $32, R8", "ADDQ R8, AX", "MOVL AX, AX", "MOVQ AX, R8", "SHRQ $16, R8", "MOVWQZX AX, AX", "ADDQ R8, AX", "MOVQ AX, R8", "SHRQ $16, R8", "ADDQ R8, AX", "XCHGB AH, AL", "MOVW AX, ret+32(FP)", "RET"
+]
+
+def asmSkeleton : String := "; ".intercalate asmSkeletonItems
+
 end Nebula.ChecksumAVX2
